@@ -125,7 +125,11 @@ class igmp (packet_base):
       s += self.extra
 
       for _ in range(num):
-        off,gr = GroupRecord.unpack_new(self.extra)
+        try:
+          off,gr = GroupRecord.unpack_new(self.extra)
+        except (struct.error, TruncatedException):
+          self.msg('IGMPv3 group record runs past the packet')
+          return None
         self.extra = self.extra[off:]
         self.group_records.append(gr)
 
@@ -184,6 +188,8 @@ class GroupRecord (object):
     addr = IPAddr(addr)
     auxlen *= 4
     addrs = []
+    if len(raw) < offset + 4 * n + auxlen:
+      raise TruncatedException()
     for _ in range(n):
       addrs.append( IPAddr(raw[offset:offset+4])  )
       offset += 4
